@@ -2284,3 +2284,36 @@ pub fn bigburst(rng: &mut Rng) -> Program {
     g.prog.clients[0].push(Op::Call { slot: 0, script: vec![], cancel: None });
     g.prog
 }
+
+/// family "joinrace": stop, wait for the stop to be announced (await a derived address), join at once - while the
+/// actor's task may still be tearing down its context and a long queue of never-handled messages; on L2 the join
+/// races that tear-down on another thread.  Several actors (= races) per scenario.
+pub fn joinrace(rng: &mut Rng) -> Program {
+    let mut g = G::new(rng);
+    let nact = g.rng.range(2, 4) as usize;
+    for k in 0..nact {
+        let mut a = ActorDecl::plain(1 + k as u32);
+        a.mailbox = None;
+        a.entry = *g.rng.pick(&[Entry::SpawnOwning, Entry::BuilderOwning]);
+        a.holders = vec![0];
+        a.owner = 0;
+        if g.rng.chance(1, 2) {
+            a.started = rand_sstep_timers(g.rng, 2);
+        }
+        g.prog.actors.push(a);
+    }
+    g.layout(1);
+    for k in 0..nact as u16 {
+        let own = nact as u16 + k;
+        g.prog.clients[0].push(Op::Call { slot: k, script: vec![], cancel: None });
+        g.prog.clients[0].push(Op::Stop { slot: k });
+        // queued behind the Stop: never handled, dropped when the task goes away
+        let count = *g.rng.pick(&[0u32, 200, 2000, 20000]);
+        if count > 0 {
+            g.prog.clients[0].push(Op::Burst { slot: k, count, force_every: 0 });
+        }
+        g.prog.clients[0].push(Op::Await { slot: k, by_ref: true });
+        g.prog.clients[0].push(Op::Join { slot: own, cancel: None });
+    }
+    g.prog
+}
